@@ -73,6 +73,15 @@ func thoroughExtras(id, repo, verif string, seed int, p *prog.Program, ctx *rule
 			ms = append(ms, mutant{Property: id, Name: "seeded/" + filepath.Base(filepath.Dir(mf)), Expect: exp, What: meta.Needs, Dir: filepath.Join(filepath.Dir(mf), "patch.diff")})
 		}
 	}
+	// behaviour-preserving refactorings written by independent reviewers: the rules must stay silent on them
+	refs, _ := filepath.Glob(filepath.Join(verif, "refactorings", "*.diff"))
+	for _, rf := range refs {
+		what := "behaviour-preserving refactoring"
+		if b, err := os.ReadFile(strings.TrimSuffix(rf, ".diff") + ".md"); err == nil {
+			what = firstLine(string(b))
+		}
+		ms = append(ms, mutant{Property: id, Name: "refactoring/" + strings.TrimSuffix(filepath.Base(rf), ".diff"), Expect: "Q", What: what, Dir: rf})
+	}
 	// VERIF_SEED rotates the order (all mutants are always run)
 	if len(ms) > 0 {
 		r := seed % len(ms)
@@ -94,6 +103,9 @@ func thoroughExtras(id, repo, verif string, seed int, p *prog.Program, ctx *rule
 			res := mutantResult{Name: m.Name, Expect: m.Expect, What: m.What, Source: "catalogue"}
 			if strings.HasPrefix(m.Name, "seeded/") {
 				res.Source = "seeded"
+			}
+			if strings.HasPrefix(m.Name, "refactoring/") {
+				res.Source = "refactoring"
 			}
 			tmp, err := os.MkdirTemp("", "verifmut-")
 			if err != nil {
@@ -141,9 +153,21 @@ func thoroughExtras(id, repo, verif string, seed int, p *prog.Program, ctx *rule
 	}
 	wg.Wait()
 	sort.Slice(results, func(i, j int) bool { return results[i].Name < results[j].Name })
-	killed, survivedK, na := 0, 0, 0
+	killed, survivedK, na, quiet, alarms := 0, 0, 0, 0, 0
 	for _, r := range results {
 		switch {
+		case r.Expect == "Q" && r.Outcome == "killed":
+			alarms++
+			out = append(out, report.Obligation{Rule: "SELFTEST", Key: r.Name, Status: report.Violation,
+				Why: "the checker's own self-test failed: false alarm on a behaviour-preserving change (" + r.What + "): " + r.Detail})
+			continue
+		case r.Expect == "Q" && r.Outcome == "survived":
+			quiet++
+			out = append(out, report.Obligation{Rule: "SELFTEST", Key: r.Name, Status: report.Discharged, Why: "silent on a behaviour-preserving change: " + r.What})
+			continue
+		case r.Expect == "Q":
+			na++
+			continue
 		case r.Outcome == "killed":
 			killed++
 		case r.Outcome == "survived" && r.Expect == "K":
@@ -157,7 +181,8 @@ func thoroughExtras(id, repo, verif string, seed int, p *prog.Program, ctx *rule
 			out = append(out, report.Obligation{Rule: "SELFTEST", Key: "mutant " + r.Name, Status: report.Discharged, Why: r.Outcome + " as expected: " + r.What})
 		}
 	}
-	info["mutation_selftest"] = map[string]any{"mutants": len(results), "killed": killed, "missed": survivedK, "skipped": na, "kill_matrix": results,
+	info["mutation_selftest"] = map[string]any{"mutants": len(results) - quiet - alarms, "killed": killed, "missed": survivedK, "skipped": na, "kill_matrix": results,
+		"refactorings_silent": quiet, "refactorings_alarmed": alarms,
 		"note": "mutants marked expect=S are value-level changes the static rules are known not to see; they document the limit of the claim"}
 	// ---- 2. VTA reachability cross-check
 	if vp, err := prog.Load(repo, true, nil); err != nil {
